@@ -4,11 +4,17 @@
 //! and therefore has 'unsafe' code.
 
 use std::time::Duration;
+use std::sync::atomic::{AtomicU64, Ordering};
 use thread_timer::ThreadTimer;
 
 use super::logic_var::*;
 
 static mut SUIRON_STOP_QUERY: bool = false;
+
+// Number of the current query timer. A timer may only stop the query it was
+// started for: ThreadTimer::cancel() can fail when it races with the timer
+// thread, and the timer then fires after the query has finished.
+static TIMER_GENERATION: AtomicU64 = AtomicU64::new(0);
 
 /// Create a timer with a timeout in milliseconds.
 ///
@@ -27,9 +33,15 @@ static mut SUIRON_STOP_QUERY: bool = false;
 /// ```
 pub fn start_query_timer(milliseconds: u64) -> ThreadTimer {
     unsafe { SUIRON_STOP_QUERY = false; }
+    let generation = TIMER_GENERATION.fetch_add(1, Ordering::SeqCst) + 1;
     let timer = ThreadTimer::new();
     timer.start(Duration::from_millis(milliseconds),
-                move || { stop_query(); }).unwrap();
+                move || {
+                    // Ignore a timer which was cancelled or superseded.
+                    if TIMER_GENERATION.load(Ordering::SeqCst) == generation {
+                        stop_query();
+                    }
+                }).unwrap();
     return timer;
 } // start_query_timer()
 
@@ -45,6 +57,8 @@ pub fn start_query_timer(milliseconds: u64) -> ThreadTimer {
 /// cancel_timer(timer);
 /// ```
 pub fn cancel_timer(timer: ThreadTimer) {
+    // From now on the timer must not stop a query, even if cancel() fails.
+    TIMER_GENERATION.fetch_add(1, Ordering::SeqCst);
     match timer.cancel() {
         Ok(_) => {},
         Err(_) => {},
